@@ -103,6 +103,16 @@ func VH_C12_ps_units_Q() {
 		return
 	}
 	near := func(a, b float64) bool { return a-b <= 1e-4*(1+b) && b-a <= 1e-4*(1+b) }
-	vKnown("D63", true)
 	vAssert("C12.ps.units.page_size_in_points", near(bw, w*72/25.4) && near(bh, h*72/25.4))
+	// ... and the coordinates that follow are millimetres: the program must scale its user space
+	text := buf.String()
+	if vhC12Recorded {
+		text = vhC12Fmt
+	}
+	scaled := false
+	key := "72 25.4 div dup scale"
+	for i := 0; i+len(key) <= len(text); i++ {
+		scaled = scaled || text[i:i+len(key)] == key
+	}
+	vAssert("C12.ps.units.user_space_scaled_to_millimetres", scaled)
 }
